@@ -1047,7 +1047,7 @@ def gen_proxy(L, K, rng):
             i, j = rng.randrange(na), rng.randrange(nb)
             x, y = g.slots[a].elems[i], g.slots[b].elems[j]
             g.slots[a].elems[i], g.slots[b].elems[j] = y, x
-            g.lines.append("refswap %d %d %d %d %d" % (a, i, b, j, rng.choice([0, 1])))
+            g.lines.append("refswap %d %d %d %d %d" % (a, i, b, j, rng.choice([0, 1, 2, 3])))
             g.stat("refswap" + ("-self" if a == b and i == j else ""))
         elif r < 0.58:
             i = rng.randrange(na)
